@@ -395,7 +395,9 @@ pub fn dirs(spec: &Value, w: &mut dyn std::io::Write) -> u64 {
     let root_off = if g.ft == 32 { g.clu_off(g.root_cluster) } else { g.root_off() };
     let cap = if g.ft == 32 { g.cs() / 32 } else { g.root_entries };
     let mut n = 0u64;
-    for d in spec.get("dirs").and_then(Value::as_array).cloned().unwrap_or_default() {
+    // optional "pred": per directory, the long names a model of the reader predicts (compared by TraceDirDecode, never a verdict)
+    let preds = spec.get("pred").and_then(Value::as_array).cloned();
+    for (di, d) in spec.get("dirs").and_then(Value::as_array).cloned().unwrap_or_default().into_iter().enumerate() {
         let slots: Vec<Vec<u8>> = d
             .as_array()
             .map(|a| a.iter().map(|s| s.as_array().map(|b| b.iter().map(|x| x.as_u64().unwrap_or(0) as u8).collect()).unwrap_or_default()).collect())
@@ -472,6 +474,9 @@ pub fn dirs(spec: &Value, w: &mut dyn std::io::Write) -> u64 {
         m.insert("feat".into(), json!(crate::FEATURE));
         m.insert("sl".into(), json!(sj));
         m.insert("r".into(), res);
+        if let Some(p) = preds.as_ref().and_then(|p| p.get(di)) {
+            m.insert("pred".into(), p.clone());
+        }
         emit(w, m);
     }
     n
